@@ -86,6 +86,19 @@ theorem reader_content (content : Position.Bytes) (evs : List Reader.Ev) (bs : L
   rw [← h.1]
   simpa [ReaderContent.state, ReaderContent.stack, ReaderContent.opens, hstack, hinl, Flat.blocks] using hc
 
+/-- **the front matter the reader hands on is the front matter the parser reported**: the text of the last `Text`
+event inside a metadata block (there is exactly one for a front-matter block at the top of a note; several only in
+the shape of finding D24, where the reader keeps the last chunk — stated here, not hidden) -/
+theorem reader_frontmatter (content : Position.Bytes) (evs : List Reader.Ev) (bs : List DBlock) (m : Option String)
+    (hwf : Events.wellFormed evs = true) (hfree : Flat.htmlTextFree [] evs = true)
+    (h : Reader.read content evs = .ok (bs, m)) : m = Flat.metaText false none evs := by
+  obtain ⟨st, hs, _, _, _⟩ := ReaderTotal.run_delivers_core content evs hwf
+  simp only [Reader.read, hs, Except.ok.injEq, Prod.mk.injEq] at h
+  have hfs : Events.run [] evs = some [] := by simpa [Events.wellFormed] using hwf
+  have hc := ReaderContent.run_md content evs ReaderTotal.rel_init hfs hfree hs
+  rw [← h.2]
+  exact hc
+
 /-- the HTML-block exception is needed: with `Text` inside an HTML block of a quote the reader appends the text to
 the last block of the quote, and a code block silently swallows it (model-level witness; pulldown-cmark emits
 such a stream only for finding D21's indented HTML blocks) -/
